@@ -222,6 +222,24 @@ pub fn run(reg: &[Box<dyn TypeOps>], cfg: &Cfg, out: &mut dyn Write) {
                 }
             }
         }
+        // … and for 2-byte offset types (S103): a string item of almost 64 KiB whose link offset lands on / next to `L::MAX` = 65535, then
+        // another push (strings only, see above)
+        if let Shape::Flex(e, l) = &sh {
+            if l.size == 2 {
+                if let Shape::Str(il) = &**e {
+                    if il.size >= 2 {
+                        let os = sh.data_offset();
+                        let around = 65535usize.saturating_sub(os + il.size);
+                        for n in [around.saturating_sub(al + 2), around.saturating_sub(1), around, around + 1] {
+                            if n as u128 > il.max() { continue; }
+                            let it = D::StrFrom(vec![b'a'; n]);
+                            let small = D::StrFrom(b"b".to_vec());
+                            boundary.push((65536 + 96, vec![Op::FPush(it), Op::FPush(small.clone()), Op::FPop, Op::FPush(small)]));
+                        }
+                    }
+                }
+            }
+        }
         // tight rooms (S98): an item that is a struct or an enum pushed twice into an empty vector, in a buffer of *every* length from the
         // minimum up to where two such items fit comfortably — whichever length leaves exactly "one slot and a little" for a push is among them
         if let Shape::Flex(e, _) = &sh {
